@@ -87,7 +87,7 @@ func (e *Env) Violation(sig, detail string, replay interface{}) bool {
 		}
 	}
 	h := sha256.Sum256([]byte(sig))
-	dir := filepath.Join(e.Home, "replays")
+	dir := filepath.Join(e.OutDir(), "replays")
 	os.MkdirAll(dir, 0o755)
 	path := filepath.Join(dir, fmt.Sprintf("%s-%s.json", e.PropID, hex.EncodeToString(h[:5])))
 	art := map[string]interface{}{
@@ -164,7 +164,7 @@ func (e *Env) Finish(level string, coverage map[string]interface{}, assumptions 
 	ev := Evidence{PropertyID: e.PropID, Tier: e.Tier, Seed: e.Seed, Level: level, Coverage: coverage,
 		Assumptions: assumptions, WallS: time.Since(e.Start).Seconds(), Violations: fresh}
 	b, _ := json.MarshalIndent(ev, "", " ")
-	dir := filepath.Join(e.Home, "evidence")
+	dir := filepath.Join(e.OutDir(), "evidence")
 	os.MkdirAll(dir, 0o755)
 	if err := os.WriteFile(filepath.Join(dir, e.PropID+".json"), append(b, '\n'), 0o644); err != nil {
 		e.HarnessError("cannot write evidence: %v", err)
@@ -180,4 +180,13 @@ func (e *Env) Finish(level string, coverage map[string]interface{}, assumptions 
 	code := e.exitCode
 	e.Cleanup()
 	os.Exit(code)
+}
+
+// OutDir is where evidence/ and replays/ are written: /verif, or VERIF_OUT when set (used when the
+// checks are pointed at a scratch copy of the repository, so that committed evidence is never overwritten).
+func (e *Env) OutDir() string {
+	if v := os.Getenv("VERIF_OUT"); v != "" {
+		return v
+	}
+	return e.Home
 }
